@@ -607,9 +607,25 @@ func checkCwndNeverStuck(p *Prog, r *Report, rule string) {
 			// every full flush with nocwnd == 0 reaches it: from each block that branches on nocwnd == 0 (true edge) no path to the exit avoids it
 			ok = true
 			found := false
-			for _, b := range c.live {
+			eqKey := eq(tFld(kcp, p.Field("KCP", "nocwnd")), tConst(0)).Key()
+			neKey := ne(tFld(kcp, p.Field("KCP", "nocwnd")), tConst(0)).Key()
+			// ccSide: for a block that tests nocwnd == 0 or nocwnd != 0, the successor index taken with congestion control on
+			ccSide := func(b *cfg.Block) int {
 				ct := c.CondTerm(b)
-				if ct == nil || len(b.Succs) != 2 || ct.Key() != eq(tFld(kcp, p.Field("KCP", "nocwnd")), tConst(0)).Key() {
+				if ct == nil || len(b.Succs) != 2 {
+					return -1
+				}
+				switch ct.Key() {
+				case eqKey:
+					return 0
+				case neKey:
+					return 1
+				}
+				return -1
+			}
+			for _, b := range c.live {
+				side := ccSide(b)
+				if side < 0 {
 					continue
 				}
 				if !c.BlockDominates(b, floorBlk) {
@@ -622,11 +638,10 @@ func checkCwndNeverStuck(p *Prog, r *Report, rule string) {
 						noStore = false
 					}
 				}
-				nocwndKey := ct.Key()
-				res := c.FindPath(PathQuery{From: Point{b.Succs[0], 0}, ExitIsTarget: true, OnBlock: func(x *cfg.Block) (bool, bool) { return false, x == floorBlk },
+				res := c.FindPath(PathQuery{From: Point{b.Succs[side], 0}, ExitIsTarget: true, OnBlock: func(x *cfg.Block) (bool, bool) { return false, x == floorBlk },
 					EdgeOK: func(from, to *cfg.Block) bool {
 						// nocwnd is not modified by flush: a later test of the same condition takes the same branch
-						if t2 := c.CondTerm(from); noStore && t2 != nil && len(from.Succs) == 2 && t2.Key() == nocwndKey && to == from.Succs[1] {
+						if s2 := ccSide(from); noStore && s2 >= 0 && to == from.Succs[1-s2] {
 							return false
 						}
 						return true
